@@ -207,6 +207,8 @@ mod readme_doctest {}
 pub mod core;
 #[cfg(fuzzing)]
 pub mod fuzzing;
+#[cfg(feature = "verif-hooks")]
+pub mod verif;
 pub mod word_splitters;
 pub mod wrap_algorithms;
 
